@@ -1,3 +1,4 @@
 import MatidModel.Parse
 import MatidModel.Radii
 import MatidModel.Table
+import MatidModel.Chirality
